@@ -63,6 +63,51 @@ Section Wrap.
     match cs with CInit => [] | CAwait g => drop b kill g end.
 End Wrap.
 
+(* ---- `await x` by itself: a native coroutine `async def outer(): return await f()` ------------- *)
+(* the same delegation as in wrap_coroutine without the profiler bracket; the awaited object is a native
+   coroutine (ik = KCoro) or a generator marked @types.coroutine (ik = KGen): CPython delegates send / throw /
+   close to both in the same way *)
+Section Await.
+  Context {S : Type}.
+  Variable ik : kind.
+  Variable b : ebody S.
+  Variable kill : S -> list event.
+  Variable s0 : S.
+
+  Definition after_plain_await (ev : list event) (out : outcome) (g' : gstate S) : list event * bstep (cstate S) :=
+    match out with
+    | OYield x => (ev, BYield x (CAwait g'))
+    | OStop v => (ev ++ drop b kill g', BReturn v)
+    | ORaise e => (ev ++ drop b kill g', BRaise e)
+    | OStopAsync | ONone => (ev ++ drop b kill g', BRaise OtherErr)
+    end.
+
+  Definition await_of : ebody (cstate S) := fun cs r =>
+    match cs, r with
+    | CInit, SendV _ =>
+        let '(ev, out, g') := gen_op ik b s0 GCreated (OpSend vnone) in after_plain_await ev out g'
+    | CInit, ThrowE e => ([], BRaise e)
+    | CAwait g, SendV v =>
+        let '(ev, out, g') := gen_op ik b s0 g (OpSend v) in after_plain_await ev out g'
+    | CAwait g, ThrowE e =>
+        if e =? GenExit then
+          let '(ev, out, g') := gen_op ik b s0 g OpClose in
+          match out with
+          | ORaise e' => (ev ++ drop b kill g', BRaise e')
+          | _ => (ev ++ drop b kill g', BRaise GenExit)
+          end
+        else
+          let '(ev, out, g') := gen_op ik b s0 g (OpThrow e) in after_plain_await ev out g'
+    end.
+
+  Definition akill (cs : cstate S) : list event :=
+    match cs with CInit => [] | CAwait g => drop b kill g end.
+
+  (* what a client of the awaiting coroutine sees *)
+  Definition awaited_observe (ops : list op) :=
+    observe KCoro await_of akill CInit ops.
+End Await.
+
 Definition coro_wrapped_observe {S} (b : body S) (s0 : S) (ops : list op) :=
   observe KCoro (wrap_coro (observed b) nokill s0) (ckill (observed b) nokill) CInit ops.
 Definition coro_plain_observe {S} (b : body S) (s0 : S) (ops : list op) :=
